@@ -219,7 +219,11 @@ def diff_lines(model_path, impl_path):
         b = i[k].rstrip() if k < len(i) else "<missing>"
         if a != b:
             sa, sb = split_sections(a), split_sections(b)
-            names = [n for n in sorted(set(sa) | set(sb)) if sa.get(n) != sb.get(n)]
+            # a model section equal to '?' means "outside the model": nothing to compare
+            wild = lambda v: v is not None and v.split(' ', 1)[1:] == ['?']
+            names = [n for n in sorted(set(sa) | set(sb)) if sa.get(n) != sb.get(n) and not wild(sa.get(n))]
+            if not names and any(wild(v) for v in sa.values()):
+                continue
             diffs.append((k, names or ["<line>"]))
     return diffs
 
